@@ -197,6 +197,11 @@ pub trait Engine {
     fn hang_is_violation(&self, _prop: &str) -> bool {
         false
     }
+    /// upper bound on the number of batches a worker process takes in one go, for the group that starts at
+    /// `batch` (heavy batches get small groups so that the load is balanced over the cores)
+    fn max_group(&self, _ctx: &Ctx, _batch: usize) -> usize {
+        usize::MAX
+    }
 }
 
 // ---------------------------------------------------------------------------------------------
@@ -322,7 +327,11 @@ pub fn worker_main(engine: &dyn Engine, ctx: &Ctx, lo: usize, hi: usize) {
         CUR_BATCH.store(b, Ordering::Relaxed);
         beat();
         let mut r = Report::new();
+        let t0 = Instant::now();
         engine.run_batch(ctx, b, &mut r);
+        if std::env::var("VERIF_PROFILE_BATCHES").is_ok() {
+            eprintln!("batch {} {:.3}s evaluations {}", b, t0.elapsed().as_secs_f64(), r.get("evaluations"));
+        }
         rep.merge(r);
     }
     let out = rep.to_json().to_string();
@@ -395,9 +404,21 @@ pub fn run_engine(engine: &dyn Engine, ctx: &Ctx) -> RunResult {
     let t0 = Instant::now();
     let nb = engine.num_batches(ctx);
     let nt = num_threads();
-    // a worker process takes a contiguous group of batches; aim at ~6 groups per thread
-    let group = ((nb + nt * 6 - 1) / (nt * 6)).max(1);
-    let ngroups = (nb + group - 1) / group;
+    // a worker process takes a contiguous group of batches; aim at ~8 groups per thread, fewer batches per group
+    // where the engine says its batches are heavy
+    let default_group = ((nb + nt * 8 - 1) / (nt * 8)).max(1);
+    let mut bounds: Vec<(usize, usize)> = vec![];
+    let mut lo = 0;
+    while lo < nb {
+        let cap = engine.max_group(ctx, lo).min(default_group).max(1);
+        let mut hi = lo + 1;
+        while hi < nb && hi - lo < cap && engine.max_group(ctx, hi) >= cap {
+            hi += 1;
+        }
+        bounds.push((lo, hi));
+        lo = hi;
+    }
+    let ngroups = bounds.len();
     let next = AtomicUsize::new(0);
     let results: Mutex<Vec<Option<WorkerOutcome>>> = Mutex::new((0..ngroups).map(|_| None).collect());
     std::thread::scope(|sc| {
@@ -407,8 +428,7 @@ pub fn run_engine(engine: &dyn Engine, ctx: &Ctx) -> RunResult {
                 if g >= ngroups {
                     break;
                 }
-                let lo = g * group;
-                let hi = ((g + 1) * group).min(nb);
+                let (lo, hi) = bounds[g];
                 let r = run_worker(ctx, lo, hi);
                 results.lock().unwrap()[g] = Some(r);
             });
@@ -422,7 +442,7 @@ pub fn run_engine(engine: &dyn Engine, ctx: &Ctx) -> RunResult {
             Some(WorkerOutcome::Hang(v)) => {
                 let in_case = !v["case"].is_null() && v["by"] == "cpu";
                 if engine.hang_is_violation(&ctx.prop) && in_case {
-                    let case = json!({"hang": v, "group_lo": g * group, "group_hi": ((g + 1) * group).min(nb)});
+                    let case = json!({"hang": v, "group_lo": bounds[g].0, "group_hi": bounds[g].1});
                     report.violation(&ctx.prop, engine.name(), case, format!("the code under test did not return after {} s of CPU time on one case", CASE_CPU_LIMIT_S));
                 } else {
                     failures.push(format!("watchdog: no progress ({} s CPU / {} s wall limit): {}", CASE_CPU_LIMIT_S, CASE_WALL_LIMIT_S, v));
@@ -733,5 +753,16 @@ impl Engine for Composite {
     }
     fn hang_is_violation(&self, prop: &str) -> bool {
         self.parts.iter().any(|p| p.hang_is_violation(prop))
+    }
+    fn max_group(&self, ctx: &Ctx, batch: usize) -> usize {
+        let mut b = batch;
+        for p in &self.parts {
+            let n = p.num_batches(ctx);
+            if b < n {
+                return p.max_group(ctx, b);
+            }
+            b -= n;
+        }
+        usize::MAX
     }
 }
